@@ -47,6 +47,13 @@ def main():
     matrix = ('| seeded change | what it is (first line of the author\'s '
               'notes) | quick check(s) | first mechanism reported | caught |\n'
               '|---|---|---|---|---|\n' + '\n'.join(rows) + '\n')
+    total = sum(a + b for a, b in per_round.values())
+    once = sum(a for a, b in per_round.values())
+    matrix += '\n   Summary: %d seeded changes, %d reported at once, %d only ' \
+        'after the workloads were widened (%s).\n' % (
+            total, once, total - once, '; '.join(
+                '%s %d/%d' % (r, per_round[r][0], per_round[r][1])
+                for r in sorted(per_round)))
     p = os.path.join(HERE, 'DESIGN.md')
     s = open(p).read()
     for tag, body in (('SEED-LESSONS', '\n'.join(hist) + '\n'),
